@@ -33,6 +33,9 @@ class C18(Monitor):
                 continue
             if aname(v) == "ChargingStation" and (v.vehicle_state.station_id, v.vehicle_state.charger_id) == key[:2]:
                 ctx.count("c18_grants")
+                mech = ctx.env.mechatronics.get(v.mechatronics_id)
+                if mech is not None and mech.is_full(prev.vehicles[vid]):
+                    ctx.count("c18_grants_to_full_vehicles")
                 waiting = [w for w, kk in qp.items() if w != vid and kk[:2] == key[:2] and qn.get(w) == kk]
                 if waiting:
                     ctx.count("c18_grants_with_others_waiting")
